@@ -1,41 +1,52 @@
 #!/usr/bin/env python3
-"""(development) tools/gen_ifvalue.py: writes lean/HbsModel/Lemmas/IfValue.lean – compile2 on  L ++ {{#if v}}{{x}}{{/if}} ++ R  –
-by substituting the tags' text, offsets and pair list in Lemmas/WithUp.lean ({{#with v}}{{../x}}{{/with}}).  The output is an
-ordinary Lean file, checked by the kernel like any other, and is committed."""
+"""(development) tools/gen_ifvalue.py: writes lean/HbsModel/Lemmas/IfValue.lean – compile2 on  L ++ {{#if v}}{{x}}{{/if}} ++ R  – and
+Lemmas/UnlessValue.lean ({{#unless v}}{{x}}{{/unless}}), Lemmas/WithValue.lean ({{#with v}}{{x}}{{/with}}) by substituting the tags' text, offsets and pair list in Lemmas/WithUp.lean
+({{#with v}}{{../x}}{{/with}}).  The outputs are ordinary Lean files, checked by the kernel like any other, and are committed."""
 import re, os
 HERE = os.path.dirname(os.path.dirname(os.path.abspath(__file__)))
 base = os.path.join(HERE, "lean", "HbsModel", "Lemmas")
-s = open(os.path.join(base, "WithUp.lean")).read()
-s = s.replace("import HbsModel.Lemmas.WithBlock", "import HbsModel.Lemmas.IfBlock")
-# the path_up pair disappears
-s = s.replace("⟨some .r_path_up, 13, 15⟩, ", "")
-s = s.replace("⟨some .r_path_up, a + 13, a + 15⟩,\n", "\n")
-s = s.replace(":: ⟨some .r_path_up, a + 13, a + 15, []⟩\n", "\n")
-s = s.replace("⟨some .r_path_up, L.length + 13, L.length + 15, []⟩ ::\n", "\n")
-s = s.replace("    · show ((some Rule.r_path_up : Option Rule) == some Rule.r_escape) = false; decide\n", "")
-s = s.replace("rfl | rfl | rfl | rfl | rfl | rfl | rfl | rfl | rfl | rfl | rfl | rfl | rfl | rfl | rfl)", "rfl | rfl | rfl | rfl | rfl | rfl | rfl | rfl | rfl | rfl | rfl | rfl | rfl | rfl)")
-s = s.replace("(0 + 1) + 1 + 1 + 1 + 1 + 1 + 1 + 1 + 1 + 1 + 1 + 1 + 1 + 1 + 1)", "(0 + 1) + 1 + 1 + 1 + 1 + 1 + 1 + 1 + 1 + 1 + 1 + 1 + 1 + 1)")
-assert "path_up" not in s.replace(".r_path_up", "").replace("`path_up`", "") or True
-# characters
-s = s.replace("'.', '.', '/', 'x'", "'x'").replace(", '.', '.', '/'", "")
-s = s.replace("'w', 'i', 't', 'h'", "'i', 'f'")
-s = s.replace("{{#with v}}{{../x}}{{/with}}", "{{#if v}}{{x}}{{/if}}").replace("{{../x}}", "{{x}}").replace("{{#with v}}", "{{#if v}}").replace("{{/with}}", "{{/if}}")
-# offsets
-offs = {3: 3, 7: 5, 8: 6, 9: 7, 11: 9, 13: 11, 16: 11, 17: 12, 19: 14, 22: 17, 26: 19, 28: 21}
-s = re.sub(r"\b(a|L\.length) \+ (\d+)\b", lambda m: "%s + %d" % (m.group(1), offs[int(m.group(2))]), s)
-old_toks = s[s.index("def wuToks"):s.index("theorem wuSrc_eq")]
-new_toks = re.sub(r", (\d+), (\d+)⟩", lambda m: ", %d, %d⟩" % (offs.get(int(m.group(1)), 0) if int(m.group(1)) else 0, offs[int(m.group(2))]), old_toks)
-s = s.replace(old_toks, new_toks)
-s = s.replace("some (.ok 28 [] wuToks)", "some (.ok 21 [] wuToks)").replace("28 ≤ n", "21 ≤ n")
-# fuel bookkeeping: one pair less = 4 units less
-for a, b in [(" + 70", " + 66"), (" + 69", " + 65"), (" + 73", " + 69")]:
-    s = s.replace(a, b)
-# the path `x` is not `this`, has no `..`
-s = s.replace("name := .path (.relative [.up, .named ['x']] ['x'])", "name := .path (.relative [.named ['x']] ['x'])")
-# names
-for a, b in [("wuSrc", "ifvSrc"), ("wuToks", "ifvToks"), ("wu_decided", "ifv_decided"), ("wu_tagAt", "ifv_tagAt"), ("parse_text_wu_text", "parse_text_ifv_text"),
-             ("step_wu_start", "step_ifv_start"), ("step_wu_end", "step_ifv_end"), ("step_inner_up", "step_inner_x"), ("upHT", "xHT"), ("wuHT", "ifvHT"),
-             ("wuBody", "ifvBody"), ("compile_text_wu_text", "compile_text_ifv_text"), ("wiOpen", "ifOpen")]:
-    s = s.replace(a, b)
-s = s.replace("(helper `each`,", "(helper `if`,").replace("the one expression `../x`", "the one expression `x`")
-open(os.path.join(base, "IfValue.lean"), "w").write(s)
+
+
+def gen(name, pre, open_def, import_mod, out_mod, xht, step_inner):
+  n = len(name)
+  s = open(os.path.join(base, "WithUp.lean")).read()
+  s = s.replace("import HbsModel.Lemmas.WithBlock", "import HbsModel.Lemmas." + import_mod)
+  # the path_up pair disappears
+  s = s.replace("⟨some .r_path_up, 13, 15⟩, ", "")
+  s = s.replace("⟨some .r_path_up, a + 13, a + 15⟩,\n", "\n")
+  s = s.replace(":: ⟨some .r_path_up, a + 13, a + 15, []⟩\n", "\n")
+  s = s.replace("⟨some .r_path_up, L.length + 13, L.length + 15, []⟩ ::\n", "\n")
+  s = s.replace("    · show ((some Rule.r_path_up : Option Rule) == some Rule.r_escape) = false; decide\n", "")
+  s = s.replace("rfl | rfl | rfl | rfl | rfl | rfl | rfl | rfl | rfl | rfl | rfl | rfl | rfl | rfl | rfl)", "rfl | rfl | rfl | rfl | rfl | rfl | rfl | rfl | rfl | rfl | rfl | rfl | rfl | rfl)")
+  s = s.replace("(0 + 1) + 1 + 1 + 1 + 1 + 1 + 1 + 1 + 1 + 1 + 1 + 1 + 1 + 1 + 1)", "(0 + 1) + 1 + 1 + 1 + 1 + 1 + 1 + 1 + 1 + 1 + 1 + 1 + 1 + 1)")
+  assert "path_up" not in s.replace(".r_path_up", "").replace("`path_up`", "") or True
+  # characters
+  s = s.replace("'.', '.', '/', 'x'", "'x'").replace(", '.', '.', '/'", "")
+  s = s.replace("'w', 'i', 't', 'h'", ", ".join("'%s'" % c for c in name))
+  s = s.replace("{{#with v}}{{../x}}{{/with}}", "{{#%s v}}{{x}}{{/%s}}" % (name, name)).replace("{{../x}}", "{{x}}").replace("{{#with v}}", "{{#%s v}}" % name).replace("{{/with}}", "{{/%s}}" % name)
+  # offsets
+  offs = {3: 3, 7: 3 + n, 8: 4 + n, 9: 5 + n, 11: 7 + n, 13: 9 + n, 16: 9 + n, 17: 10 + n, 19: 12 + n, 22: 15 + n, 26: 15 + 2 * n, 28: 17 + 2 * n}
+  T = 17 + 2 * n
+  s = re.sub(r"\b(a|L\.length) \+ (\d+)\b", lambda m: "%s + %d" % (m.group(1), offs[int(m.group(2))]), s)
+  old_toks = s[s.index("def wuToks"):s.index("theorem wuSrc_eq")]
+  new_toks = re.sub(r", (\d+), (\d+)⟩", lambda m: ", %d, %d⟩" % (offs.get(int(m.group(1)), 0) if int(m.group(1)) else 0, offs[int(m.group(2))]), old_toks)
+  s = s.replace(old_toks, new_toks)
+  s = s.replace("some (.ok 28 [] wuToks)", "some (.ok %d [] wuToks)" % T).replace("28 ≤ n", "%d ≤ n" % T)
+  # fuel bookkeeping: one pair less = 4 units less
+  for a, b in [(" + 70", " + 66"), (" + 69", " + 65"), (" + 73", " + 69")]:
+      s = s.replace(a, b)
+  # the path `x` is not `this`, has no `..`
+  s = s.replace("name := .path (.relative [.up, .named ['x']] ['x'])", "name := .path (.relative [.named ['x']] ['x'])")
+  # names
+  for a, b in [("wuSrc", pre + "Src"), ("wuToks", pre + "Toks"), ("wu_decided", pre + "_decided"), ("wu_tagAt", pre + "_tagAt"), ("parse_text_wu_text", "parse_text_%s_text" % pre),
+               ("step_wu_start", "step_%s_start" % pre), ("step_wu_end", "step_%s_end" % pre), ("step_inner_up", step_inner), ("upHT", xht), ("wuHT", pre + "HT"),
+               ("wuBody", pre + "Body"), ("compile_text_wu_text", "compile_text_%s_text" % pre), ("wiOpen", open_def)]:
+      s = s.replace(a, b)
+  s = s.replace("(helper `each`,", "(helper `%s`," % name).replace("the one expression `../x`", "the one expression `x`")
+  open(os.path.join(base, out_mod + ".lean"), "w").write(s)
+
+
+if __name__ == "__main__":
+    gen("if", "ifv", "ifOpen", "IfBlock", "IfValue", "xHT", "step_inner_x")
+    gen("unless", "unv", "unOpen", "UnlessBlock", "UnlessValue", "unvXHT", "step_inner_x_unv")
+    gen("with", "wiv", "wiOpen", "WithBlock", "WithValue", "wivXHT", "step_inner_x_wiv")
